@@ -3,7 +3,7 @@ import ast
 
 from .. import spec, regexset
 from ..absint import Explorer, UNKNOWN
-from ..astutil import norm, const, NO, compare, tail, names
+from ..astutil import norm, const, NO, compare, tail, names, fmt_shape
 from ..index import AnalysisError, walk_own, Regex
 from .common import (site, key, calls_to, method_calls, nodes_with, guard_check, stores_to_name, kills_of, regex_test, rname)
 from .c01 import token_recog, forbidden_recog
@@ -141,6 +141,11 @@ def r1(ctx):
                     if isinstance(t, ast.Attribute) and t.attr in fields and tail(t.value) in ("resp", "response") and _is_response_var(repo, f, t.value):
                         leaves = [y for y in ast.walk(x.value) if isinstance(y, ast.Name)]
                         okk = all(_literal_only(f, y.id) for y in leaves)
+                        if not okk and f.qualname == "gunicorn.workers.base.Worker.handle_error" and t.attr == "status":
+                            # status/reason taken from a table rather than written as literals: evaluated (C05.R4)
+                            from .c05 import status_reason_fixed
+                            sh = fmt_shape(x.value)
+                            okk = status_reason_fixed(repo)[0] and sh is not None and sh[0] == "{} {}" and all(isinstance(v, ast.Name) for v in sh[1])
                         ctx.check("C09.R1", okk, key(f, "outside-writer|" + t.attr), site(f, x), "Response.%s is written outside the class from non-literal data" % t.attr, "built from literals only")
 
 
